@@ -3,7 +3,7 @@
 From SV Require Import Model.PeakHelpers Spec.PeakHelpersSpec Proof.PeakHelpersProof.
 From SV Require Import Model.Peaks Spec.PeaksSpec Proof.PeaksProof Proof.PeaksTheorems Proof.PeaksExamples.
 From SV Require Import Model.Merging Spec.MergingSpec Proof.ReplaceMergedProof Proof.MergePeaksProof.
-From SV Require Import Proof.ReplaceMergedSorted.
+From SV Require Import Proof.ReplaceMergedSorted Proof.PeaksNoCut.
 From SV Require Import Model.PeakProps Spec.PeakPropsSpec Proof.PeakPropsProof.
 From SV Require Import Model.Splitting Proof.SplittingProof.
 From SV Require Import Model.SumWaveform Proof.SumWaveformProof.
@@ -72,6 +72,15 @@ Theorem C19_find_peaks_disjoint_ordered_partial : forall P gains nch hs ps gs d,
   peaks_disjoint_ordered ps.
 Proof. exact find_peaks_disjoint. Qed.
 Print Assumptions C19_find_peaks_disjoint_ordered_partial.
+
+(* the same from an input-level condition: max_duration so large that peak_too_long is false for
+   every pair of hits (the default 10 ms against typical peak spans) *)
+Theorem C19_find_peaks_disjoint_ordered_large_max_duration_partial : forall P gains nch hs ps d,
+  find_peaks P gains nch hs = Ok ps -> Forall (fun x => 0 <= hch x) hs -> fp_asserts P gains hs = true ->
+  no_duration_cut P hs -> uniform d hs -> 0 < d -> 0 <= fp_lext P -> 0 <= fp_rext P ->
+  peaks_disjoint_ordered ps.
+Proof. exact find_peaks_disjoint_large_max_duration. Qed.
+Print Assumptions C19_find_peaks_disjoint_ordered_large_max_duration_partial.
 
 Theorem C19_find_peaks_disjoint_ordered_refuted :
   exists P gains nch hs ps,
